@@ -111,6 +111,14 @@ claim('C14', 'registry/sibling checks of the delegations, deviance rule over the
       'cast=True). Value equality with per-variable results is not decided.',
       'Assumes np.take semantics; Dataset.__setitem__ re-establishes shared axes (C13).', 'DESIGN.md §3 C14')
 
+claim('C15', 'interprocedural may-mutate / may-alias effect analysis (alias sets with field sensitivity, option specialisation, fixpoint over call-graph cycles, frozen NumPy/builtin effect tables)',
+      'Decides the ownership clause of C15 for all call chains at once: for every public non-in-place operation of DimArray, Dataset, Axis, Axes and the exported functions '
+      '(about 180 operation x option specialisations, inplace=False forced where the option exists) the summary of parameters that may be written - directly or through any '
+      'callee - is empty; DimArray.copy() / Axis.copy() / Axes.copy() are deep copies aliasing nothing; Dataset.__setitem__ stores a private shell with deep-copied axes; the '
+      'in-place fill of Dataset.reindex_axis is guarded so that only fresh variables are written. A violation prints the call chain down to the primitive write. '
+      'Writes hidden in user-supplied callables and sharing of mutable metadata values are not decided.',
+      'Assumes the frozen effect tables of sa/effects.py (which builtin / NumPy calls write in place, return views or copies) and that unknown callables do not write their arguments.', 'DESIGN.md §3 C15')
+
 UNDER_CONSTRUCTION = 'checker under construction in this session (claimed in DESIGN.md, not yet registered)'
 for pid in ['C01', 'C03', 'C04', 'C05', 'C06', 'C07', 'C08', 'C09', 'C10', 'C11', 'C12', 'C13', 'C14', 'C15', 'C16',
             'C17', 'C18', 'C19']:
